@@ -144,8 +144,16 @@ def r2(repo, chk):
         a = c.args[0]
         if isinstance(a, ast.Call) and call_name(a) == "bytes" and a.args:
             size = fd._expand(a.args[0], 3, set())
-            if isinstance(size, ast.BinOp) and isinstance(size.op, ast.Sub) and norm(size.right) == "self._buffer.tell()":
-                target = size.left
+            if isinstance(size, ast.BinOp) and isinstance(size.op, ast.Sub):
+                r_ = size.right
+                is_tell = norm(r_) == "self._buffer.tell()"
+                if not is_tell and isinstance(r_, ast.Name):
+                    # a local that still holds tell(): its last assignment before this point is `self._buffer.tell()`
+                    prior = sorted([(st_.lineno, v_) for st_, t_, v_ in fd.assigns(chain=r_.id) if st_.lineno < c.lineno], key=lambda x: x[0])
+                    pushes_between = [p_ for p_ in pushes if prior and prior[-1][0] < p_.lineno < c.lineno]
+                    is_tell = bool(prior) and prior[-1][1] is not None and norm(prior[-1][1]) == "self._buffer.tell()" and not pushes_between
+                if is_tell:
+                    target = size.left
         extra = [x for x in lg if x[0] not in ("self._datagram_needs_padding", "datagram_bytes") and "extra_bytes > 0" not in x[0] and "> 0" not in x[0]]
         chk.ob("R2", "_flush_current_datagram pads whenever the flag is set", not extra, f"additional conditions {extra}", fd.loc(c))
     chk.ob("R2", "_flush_current_datagram pads a marked datagram up to a target size", target is not None, "padding push of `bytes(target - tell())` under the flag not found", fd.loc(fd.node))
